@@ -82,6 +82,11 @@ def run_history(variant, limit, expiration, ops):
             called = len(produced) > n_before
             ent = model.get(tk)
             fresh = ent is not None and (expiration is None or now[0] - ent[1] <= expiration)
+            # the clock is a float: at an age within rounding distance of the expiration (0.6 + 0.6 + 1.0 vs 1.2 + 1.0)
+            # "older than its expiration" is not decidable from the floats - both answers are accepted there
+            boundary = ent is not None and expiration is not None and abs((now[0] - ent[1]) - expiration) < 1e-9
+            if boundary:
+                fresh = not called
             if fresh:
                 if called:
                     return f"key {tk} is among the {limit} most recently used and unexpired, but the function was called again"
